@@ -61,18 +61,29 @@
                                          INSERTs and the first generation UPDATE itself as the faulting
                                          statement) and either the deadlock left the transaction open
                                          (`deadlock false`: re-running DELETE/check/INSERT on top of the partial
-                                         effects is idempotent) or `update_consumers` had written nothing;
+                                         effects is idempotent) or `update_consumers` had written nothing, or
+                                         (4) `deadlock true` at ANY position when `update_consumers` had written
+                                         nothing, provider and consumer ids are unique and `setAllocations db
+                                         allocs` succeeds: up to the first consumer-generation UPDATE
+                                         (`k ≤ firstIncPos + #providers`) the re-run fails its first
+                                         compare-and-swap (the object carries g+1, the row g), `replace_all`
+                                         re-reads the providers from the committed state, the third attempt is the
+                                         fault-free one (`FaultL.mainTxn_rollback_mid`: exactly once); after it
+                                         the consumer object carries g+1 and is never re-read: the third
+                                         attempt raises `ConcurrentUpdateDetected`, answered 409 with the start
+                                         state (`FaultL.mainTxn_rollback_late`: clean failure);
     * `rollback_early_loses_exactly_update_consumers`
                                          what a rolled-back deadlock at such a position does in general: the
                                          result is the fault-free result of the same request WITHOUT
                                          `update_consumers`.
 
   MISSING (not proved here):
-    * positions after the first generation increment: for `deadlock true` the re-run hits
-      `ResourceProviderConcurrentUpdateDetected` on the object that already carries `g + 1`, `replace_all`
-      reloads from the committed state and (when the request's generations were current) succeeds - this
-      would extend (3) for `deadlock true`; a consumer object that already carries `g + 1` gives 409 and a
-      clean failure.  `deadlock false` after the first increment is the double increment (false).
+    * `deadlock true` after the first generation increment when the fault-free write itself would fail
+      or retry (`setAllocations db allocs` not `.ok`: stale request generations) - only the successful
+      fault-free write is analysed there.  `deadlock false` after the first increment is the double
+      increment (the statement is false there); `deadlock true` with a real consumer attribute change is
+      the lost update (false at the positions up to the first consumer-generation UPDATE; characterised
+      only for `k ≤ firstIncPos` by `rollback_early_loses_exactly_update_consumers`).
     * the failing fault-free run (`setAllocations = .error e`) agreeing statement by statement (only the
       successful direction of `faultfree_agrees_with_handler` is proved);
     * POST /allocations (several consumers: `pre` = `updateConsumers`) and POST /reshaper use the same
@@ -85,7 +96,7 @@
   fault rolls back - covered by C04 (`residue`) / C18; here "state unchanged" is the state at the start
   of the faulted transaction.
 -/
-import Placement.Lemmas.FaultL3
+import Placement.Lemmas.FaultL5
 import Placement.Lemmas.WfExample
 
 namespace Placement.Props.C17
@@ -404,11 +415,16 @@ theorem C17_exactly_once_full_false' : ¬ ExactlyOnceOrClean wDb wCons wAttr wAl
 /-- the faults for which exactly-once-or-clean is proved -/
 def Benign (db : DB R) (cons : ConsRow) (attr : ReqAttr) (allocs : List AllocReq) (k : Nat) (kind : Kind) : Prop :=
   kind = .other ∨ ¬ Reached db cons attr allocs k ∨
-  (k ≤ firstIncPos allocs ∧ (kind = .deadlock false ∨ updateConsumer db cons attr = db))
+  (k ≤ firstIncPos allocs ∧ (kind = .deadlock false ∨ updateConsumer db cons attr = db)) ∨
+  (kind = .deadlock true ∧ updateConsumer db cons attr = db ∧
+    (db.rps.map (·.id)).Nodup ∧ (db.consumers.map (·.id)).Nodup ∧ ∃ db', setAllocations db allocs = .ok db')
 
 /-- **C17_exactly_once_partial.**  Non-retryable faults anywhere; any fault whose position is not
 reached; retryable faults at or before the first generation increment, when the transaction stayed
-open or `update_consumers` had nothing to write. -/
+open or `update_consumers` had nothing to write; rolled-back deadlocks at EVERY position when
+`update_consumers` had nothing to write, provider and consumer ids are unique and the sequential
+write succeeds (exactly once up to the first consumer-generation UPDATE as the faulting statement,
+a 409 with nothing stored after it). -/
 theorem C17_exactly_once_partial (db : DB R) (cons : ConsRow) (attr : ReqAttr) (allocs : List AllocReq) (k : Nat)
     (kind : Kind) (h : Benign db cons attr allocs k kind) : ExactlyOnceOrClean db cons attr allocs k kind := by
   by_cases hr : Reached db cons attr allocs k
@@ -419,7 +435,7 @@ theorem C17_exactly_once_partial (db : DB R) (cons : ConsRow) (attr : ReqAttr) (
       rw [mainTxn_other db cons attr allocs k sk hsk]
       exact ⟨rfl, Or.inl rfl⟩
     | deadlock b =>
-      rcases h with h | hn | ⟨hk, hkind⟩
+      rcases h with h | hn | ⟨hk, hkind⟩ | ⟨hkind, hpre, hU, hUc, db', hok⟩
       · cases h
       · exact absurd ⟨sk, hsk⟩ hn
       · left
@@ -429,6 +445,17 @@ theorem C17_exactly_once_partial (db : DB R) (cons : ConsRow) (attr : ReqAttr) (
           rcases hkind with hkind | hpre
           · cases hkind
           · rw [mainTxn_rollback_early db cons attr attr allocs k sk hpre hk hsk]; exact ⟨rfl, rfl, rfl⟩
+      · cases hkind
+        by_cases hk1 : k ≤ firstIncPos allocs
+        · left
+          rw [mainTxn_rollback_early db cons attr attr allocs k sk hpre hk1 hsk]; exact ⟨rfl, rfl, rfl⟩
+        · by_cases hk2 : k ≤ firstIncPos allocs + (rpPairs allocs).length
+          · left
+            rw [mainTxn_rollback_mid db cons attr allocs k sk db' hpre hU hok (by omega) hk2 hsk]
+            exact ⟨rfl, rfl, rfl⟩
+          · right
+            rw [mainTxn_rollback_late db cons attr allocs k sk db' hpre hU hUc hok (by omega) hsk]
+            exact ⟨rfl, Or.inr rfl⟩
   · left
     rw [nested_fault_not_reached db cons attr allocs k kind hr]
     exact ⟨rfl, rfl, rfl⟩
@@ -459,11 +486,22 @@ example : ¬ Reached wDb wCons wAttr wAllocs 8 :=
 
 /-- `Benign`, third disjunct: a deadlock without rollback at the first generation UPDATE (position 4) -/
 example : Benign wDb wCons wAttr wAllocs 4 (.deadlock false) ∧ Reached wDb wCons wAttr wAllocs 4 :=
-  ⟨Or.inr (Or.inr ⟨by decide, Or.inl rfl⟩), ⟨_, rfl⟩⟩
+  ⟨Or.inr (Or.inr (Or.inl ⟨by decide, Or.inl rfl⟩)), ⟨_, rfl⟩⟩
 
 /-- `Benign` with a rolled-back deadlock: the request keeps the consumer's project and user -/
 example : Benign wDb wCons (keepAttr wCons) wAllocs 3 (.deadlock true) :=
-  Or.inr (Or.inr ⟨by decide, Or.inr (updateConsumer_keepAttr wDb wCons)⟩)
+  Or.inr (Or.inr (Or.inl ⟨by decide, Or.inr (updateConsumer_keepAttr wDb wCons)⟩))
+
+/-- `Benign`, fourth disjunct: a rolled-back deadlock at any position `k` of the request that keeps project
+and user; positions 6 (consumer-generation UPDATE: exactly once) and 7 (clean-up: 409, nothing stored) are
+reached -/
+example (k : Nat) : Benign wDb wCons (keepAttr wCons) wAllocs k (.deadlock true) :=
+  Or.inr (Or.inr (Or.inr ⟨rfl, updateConsumer_keepAttr wDb wCons, by decide, by decide, ⟨_, rfl⟩⟩))
+
+example : Reached wDb wCons (keepAttr wCons) wAllocs 6 ∧ Reached wDb wCons (keepAttr wCons) wAllocs 7 ∧
+    (mainTxnWithFault wDb wCons (keepAttr wCons) wAllocs (some (7, .deadlock true))).error = some .concurrentUpdate ∧
+    (mainTxnWithFault wDb wCons (keepAttr wCons) wAllocs (some (6, .deadlock true))).error = none :=
+  ⟨⟨_, rfl⟩, ⟨_, rfl⟩, by decide +kernel, by decide +kernel⟩
 
 /-- the two refuting witnesses are outside `Benign`: position 5 is after the first increment; at position 2
 the rollback loses a real attribute change (`updateConsumer wDb wCons wAttr ≠ wDb`) -/
